@@ -3135,11 +3135,15 @@ _trait_set_default_value(trait_object *trait, PyObject *args)
         /* We only do sufficient validation to avoid segfaults when
            unwrapping the value in `default_value_for`. */
         case CALLABLE_AND_ARGS_DEFAULT_VALUE:
-            if (!PyTuple_Check(value) || PyTuple_GET_SIZE(value) != 3) {
+            if (!PyTuple_Check(value) || PyTuple_GET_SIZE(value) != 3
+                    || !PyTuple_Check(PyTuple_GET_ITEM(value, 1))
+                    || !(PyTuple_GET_ITEM(value, 2) == Py_None
+                         || PyDict_Check(PyTuple_GET_ITEM(value, 2)))) {
                 PyErr_SetString(
                     PyExc_ValueError,
                     "default value for type DefaultValue.callable_and_args "
-                    "must be a tuple of the form (callable, args, kwds)"
+                    "must be a tuple of the form (callable, args, kwds), "
+                    "with args a tuple and kwds a dictionary or None"
                 );
                 return NULL;
             }
